@@ -102,6 +102,131 @@ Section Lazy.
   Qed.
 End Lazy.
 
+(* ------------------------------------------------------------------------------------------
+   Derived caches (Get_sqrt_C_S): a derived quantity D = derive(law) is cached next to the law;
+   `_Update` stores C through the C setter, which resets the derived cache.  The faithful derived
+   read FIRST reads C (hence consults needUpdate), then uses / fills the cache. *)
+Section LazyDerived.
+  Variable Prm Law Der : Type.
+  Variable behavior : Prm -> Law.
+  Variable derive : Law -> Der.
+
+  Record dst := { dprm : Prm; dstored : option Law; dneed : bool; dcache : option Der }.
+
+  Inductive dop :=
+  | DSet (alias : bool) (p : Prm)
+  | DNotify
+  | DReadLaw          (* material.C / .S *)
+  | DReadDer.         (* material.Get_sqrt_C_S() *)
+
+  Inductive dres := RNone | RLaw (l : option Law) | RDer (d : option Der).
+
+  Definition dinit (p : Prm) : dst := {| dprm := p; dstored := None; dneed := true; dcache := None |}.
+
+  (* the C getter: process a pending update (the C setter resets the derived cache) *)
+  Definition refresh (s : dst) : dst :=
+    if dneed s then {| dprm := dprm s; dstored := Some (behavior (dprm s)); dneed := false; dcache := None |} else s.
+
+  Definition fill (s : dst) : dst :=
+    match dcache s, dstored s with
+    | None, Some l => {| dprm := dprm s; dstored := dstored s; dneed := dneed s; dcache := Some (derive l) |}
+    | _, _ => s
+    end.
+
+  Definition dstep (s : dst) (o : dop) : dst * dres :=
+    match o with
+    | DSet _ p => ({| dprm := p; dstored := dstored s; dneed := true; dcache := dcache s |}, RNone)
+    | DNotify => ({| dprm := dprm s; dstored := dstored s; dneed := true; dcache := dcache s |}, RNone)
+    | DReadLaw => let s' := refresh s in (s', RLaw (dstored s'))
+    | DReadDer => let s' := fill (refresh s) in (s', RDer (dcache s'))
+    end.
+
+  Fixpoint drun (s : dst) (ops : list dop) : dst :=
+    match ops with [] => s | o :: t => drun (fst (dstep s o)) t end.
+
+  Fixpoint dlast (p : Prm) (ops : list dop) : Prm :=
+    match ops with [] => p | DSet _ q :: t => dlast q t | _ :: t => dlast p t end.
+
+  (* invariant: an up-to-date object stores the law of its parameters and a consistent cache *)
+  Definition dinv (s : dst) : Prop :=
+    dneed s = false -> dstored s = Some (behavior (dprm s)) /\
+                       (forall d, dcache s = Some d -> d = derive (behavior (dprm s))).
+
+  Lemma dinv_init p : dinv (dinit p).
+  Proof. unfold dinv; cbn. discriminate. Qed.
+
+  Lemma refresh_spec s : dinv s ->
+    dneed (refresh s) = false /\ dprm (refresh s) = dprm s /\ dinv (refresh s).
+  Proof.
+    intro H. unfold refresh. destruct (dneed s) eqn:E; cbn.
+    - split; [reflexivity | split; [reflexivity |]]. unfold dinv; cbn. intros _. split; [reflexivity | discriminate].
+    - split; [exact E | split; [reflexivity | exact H]].
+  Qed.
+
+  Lemma fill_spec s : dinv s -> dneed s = false ->
+    dneed (fill s) = false /\ dprm (fill s) = dprm s /\ dinv (fill s) /\
+    dcache (fill s) = Some (derive (behavior (dprm s))).
+  Proof.
+    intros H Hn. destruct (H Hn) as [Hs Hc]. unfold fill. rewrite Hs.
+    destruct (dcache s) eqn:Ec.
+    - split; [exact Hn | split; [reflexivity | split; [exact H |]]]. rewrite Ec. f_equal. apply Hc. reflexivity.
+    - cbn. split; [exact Hn | split; [reflexivity | split; [| reflexivity]]]. unfold dinv; cbn. intros _. split; [first [exact Hs | reflexivity]|].
+      intros d Hd. injection Hd as <-. reflexivity.
+  Qed.
+
+  Lemma dinv_step s o : dinv s -> dinv (fst (dstep s o)).
+  Proof.
+    intro H. destruct o; cbn.
+    - unfold dinv; cbn. discriminate.
+    - unfold dinv; cbn. discriminate.
+    - apply refresh_spec, H.
+    - destruct (refresh_spec s H) as (Hn & _ & Hi). apply (fill_spec _ Hi Hn).
+  Qed.
+
+  Lemma dinv_run ops : forall s, dinv s -> dinv (drun s ops).
+  Proof. induction ops as [|o t IH]; cbn; auto. intros s H. apply IH, dinv_step, H. Qed.
+
+  (* the current parameters along a run from a state satisfying the invariant *)
+  Lemma dprm_run ops : forall s, dinv s -> dprm (drun s ops) = dlast (dprm s) ops.
+  Proof.
+    induction ops as [|o t IH]; cbn; auto. intros s H. rewrite (IH _ (dinv_step s o H)).
+    destruct o; cbn; auto.
+    - destruct (refresh_spec s H) as (_ & Hp & _). now rewrite Hp.
+    - destruct (refresh_spec s H) as (Hn & Hp & Hi). destruct (fill_spec _ Hi Hn) as (_ & Hp2 & _).
+      now rewrite Hp2, Hp.
+  Qed.
+
+  (* after ANY sequence of assignments / notifications / reads of either kind, in any order, the next
+     read of the law AND the next read of the derived quantity reflect the current parameters *)
+  Theorem lazy_update_derived : forall p0 ops,
+    snd (dstep (drun (dinit p0) ops) DReadLaw) = RLaw (Some (behavior (dlast p0 ops))) /\
+    snd (dstep (drun (dinit p0) ops) DReadDer) = RDer (Some (derive (behavior (dlast p0 ops)))).
+  Proof.
+    intros p0 ops. pose proof (dinv_run ops _ (dinv_init p0)) as H.
+    pose proof (dprm_run ops _ (dinv_init p0)) as Hp. cbn in Hp.
+    set (s := drun (dinit p0) ops) in *.
+    destruct (refresh_spec s H) as (Hn & Hq & Hi). cbn. split.
+    - f_equal. destruct (Hi Hn) as [Hs _]. now rewrite Hs, Hq, Hp.
+    - f_equal. destruct (fill_spec _ Hi Hn) as (_ & _ & _ & Hc). now rewrite Hc, Hq, Hp.
+  Qed.
+
+  (* the shortcut "use the derived cache when it is populated, without reading C first" *)
+  Definition dstep_shortcut (s : dst) (o : dop) : dst * dres :=
+    match o, dcache s with
+    | DReadDer, Some d => (s, RDer (Some d))
+    | _, _ => dstep s o
+    end.
+  Fixpoint drun_shortcut (s : dst) (ops : list dop) : dst :=
+    match ops with [] => s | o :: t => drun_shortcut (fst (dstep_shortcut s o)) t end.
+
+  Theorem derived_shortcut_refuted : forall p q : Prm, derive (behavior p) <> derive (behavior q) ->
+    exists ops, snd (dstep_shortcut (drun_shortcut (dinit p) ops) DReadDer)
+                <> RDer (Some (derive (behavior (dlast p ops)))).
+  Proof.
+    intros p q H. exists [DReadDer; DSet false q]. cbn. intro E. injection E as E. auto.
+  Qed.
+End LazyDerived.
+
 (* executable instance used by the correspondence run: parameters = list of integers,
    law = the parameter list itself (so the model's answer is "the parameters in force") *)
 Definition run_reads {P : Type} (p0 : P) (ops : list (op P)) : list (option P) :=
